@@ -41,8 +41,7 @@ Theorem noop_rebuild c c0 w l :
   sim (o_w o2) (o_w o1).
 Proof.
   intros Hdry Hcr Hal0 Hdry0 Hcr0 Hlink Htopo Hnoalw. cbv zeta.
-  assert (Eb : build c w l = run_order c (load w) (order_of (w_proj w) l) l).
-  { unfold build. rewrite load_proj, Hlink. reflexivity. }
+  assert (Eb : build c w l = run_order c (load w) (order_of (w_proj w) l) l) by (apply build_nocrash; assumption).
   rewrite Eb. clear Eb. intros Hdom Hok.
   set (order := order_of (w_proj w) l) in *.
   set (s1 := fold_left (eval1 c) order (mkB (load w) [] [] [] false)).
@@ -50,7 +49,7 @@ Proof.
   change (o_vis (run_order c (load w) order l)) with (b_vis s1) in Hdom, Hok.
   assert (Hp1 : w_proj (b_w s1) = w_proj w) by (unfold s1; rewrite fold_proj; reflexivity).
   assert (Eb2 : build c0 (b_w s1) l = run_order c0 (load (b_w s1)) order l).
-  { unfold build. rewrite load_proj, Hp1, Hlink. reflexivity. }
+  { rewrite build_nocrash; [rewrite Hp1; reflexivity|exact Hcr0|rewrite Hp1; exact Hlink]. }
   rewrite Eb2. clear Eb2.
   (* the second process loads first; loading is invisible to the run *)
   destruct (run_order_sim c0 (load (b_w s1)) (b_w s1) order l (sim_load (b_w s1))) as (He & Hr & _ & Hb & Hs).
